@@ -63,7 +63,7 @@ fn one_op<const OP: u8, const N: usize, const M: usize>() {
     }
     let (a0, a1) = before.authority.unwrap();
 
-    let mut x = unsafe { UriRefBuf::new_unchecked(vec_cap::<12>(b)) };
+    let mut x = unsafe { UriRefBuf::new_unchecked(vec_cap::<10>(b)) };
     let (hp, hl) = {
         let mut am = x.authority_mut().unwrap();
         apply!(am, OP, some, arg);
@@ -71,8 +71,8 @@ fn one_op<const OP: u8, const N: usize, const M: usize>() {
         (v.as_ptr(), v.len())
     };
     let out = x.as_bytes();
-    assert!(is_expected(out, b, a0, a1, OP, if some { Some(arg) } else { None }, N + M + 3), "C11: the edit did not change exactly that sub-component");
-    assert!(tables::t_uri_uriref_valid_k(out, N + M + 3), "C04: the buffer is no longer a valid URI reference after the authority edit");
+    assert!(is_expected(out, b, a0, a1, OP, if some { Some(arg) } else { None }, N + M + 1), "C11: the edit did not change exactly that sub-component");
+    assert!(tables::t_uri_uriref_valid_k(out, N + M + 1), "C04: the buffer is no longer a valid URI reference after the authority edit");
     let fresh = x.authority().unwrap().as_bytes();
     assert!(hp == fresh.as_ptr() && hl == fresh.len(), "C11: after the call the handle does not view exactly the new authority");
     cover!(some && out.len() > b.len(), "longer replacement");
@@ -81,9 +81,9 @@ fn one_op<const OP: u8, const N: usize, const M: usize>() {
     forget(x);
 }
 
-// @h prop=C11,C04 tier=quick kind=check timeout=2400 mem=20 bound="UriRefBuf with authority, text <= 4 bytes, user info <= 2 bytes or removal" encodes="RiRefBufImpl::authority_mut;AuthorityMutImpl::{set_userinfo,as_authority};parse::find_user_info;utils::{replace,allocate_range}"
+// @h prop=C11,C04 tier=quick kind=check timeout=2400 mem=15 bound="UriRefBuf with authority, text <= 4 bytes, user info <= 2 bytes or removal" encodes="RiRefBufImpl::authority_mut;AuthorityMutImpl::{set_userinfo,as_authority};parse::find_user_info;utils::{replace,allocate_range}"
 #[cfg_attr(kani, kani::proof)]
-#[cfg_attr(kani, kani::unwind(11))]
+#[cfg_attr(kani, kani::unwind(8))]
 #[cfg_attr(kani, kani::stub(std::vec::Vec::resize, crate::stubs::vec_resize))]
 pub fn c11_set_userinfo_n4() {
     one_op::<USERINFO, 4, 2>()
@@ -91,15 +91,15 @@ pub fn c11_set_userinfo_n4() {
 
 // @h prop=C11,C04 tier=thorough kind=check timeout=3600 mem=34 bound="UriRefBuf with authority, text <= 6 bytes, user info <= 2 bytes or removal" encodes="RiRefBufImpl::authority_mut;AuthorityMutImpl::{set_userinfo,as_authority};parse::find_user_info;utils::{replace,allocate_range}"
 #[cfg_attr(kani, kani::proof)]
-#[cfg_attr(kani, kani::unwind(13))]
+#[cfg_attr(kani, kani::unwind(10))]
 #[cfg_attr(kani, kani::stub(std::vec::Vec::resize, crate::stubs::vec_resize))]
 pub fn c11_set_userinfo_n6() {
     one_op::<USERINFO, 6, 2>()
 }
 
-// @h prop=C11,C04 tier=quick kind=check timeout=2400 mem=20 bound="UriRefBuf with authority, text <= 4 bytes, host <= 2 bytes" encodes="AuthorityMutImpl::{set_host,as_authority};parse::find_host;utils::replace"
+// @h prop=C11,C04 tier=quick kind=check timeout=2400 mem=15 bound="UriRefBuf with authority, text <= 4 bytes, host <= 2 bytes" encodes="AuthorityMutImpl::{set_host,as_authority};parse::find_host;utils::replace"
 #[cfg_attr(kani, kani::proof)]
-#[cfg_attr(kani, kani::unwind(11))]
+#[cfg_attr(kani, kani::unwind(8))]
 #[cfg_attr(kani, kani::stub(std::vec::Vec::resize, crate::stubs::vec_resize))]
 pub fn c11_set_host_n4() {
     one_op::<HOST, 4, 2>()
@@ -107,15 +107,15 @@ pub fn c11_set_host_n4() {
 
 // @h prop=C11,C04 tier=thorough kind=check timeout=3600 mem=34 bound="UriRefBuf with authority, text <= 6 bytes, host <= 2 bytes" encodes="AuthorityMutImpl::{set_host,as_authority};parse::find_host;utils::replace"
 #[cfg_attr(kani, kani::proof)]
-#[cfg_attr(kani, kani::unwind(13))]
+#[cfg_attr(kani, kani::unwind(10))]
 #[cfg_attr(kani, kani::stub(std::vec::Vec::resize, crate::stubs::vec_resize))]
 pub fn c11_set_host_n6() {
     one_op::<HOST, 6, 2>()
 }
 
-// @h prop=C11,C04:thorough tier=quick kind=check timeout=2400 mem=20 bound="UriRefBuf with authority, text <= 4 bytes, port <= 2 bytes or removal" encodes="AuthorityMutImpl::{set_port,as_authority};parse::find_port;utils::{replace,allocate_range}"
+// @h prop=C11,C04:thorough tier=quick kind=check timeout=2400 mem=15 bound="UriRefBuf with authority, text <= 4 bytes, port <= 2 bytes or removal" encodes="AuthorityMutImpl::{set_port,as_authority};parse::find_port;utils::{replace,allocate_range}"
 #[cfg_attr(kani, kani::proof)]
-#[cfg_attr(kani, kani::unwind(11))]
+#[cfg_attr(kani, kani::unwind(8))]
 #[cfg_attr(kani, kani::stub(std::vec::Vec::resize, crate::stubs::vec_resize))]
 pub fn c11_set_port_n4() {
     one_op::<PORT, 4, 2>()
@@ -123,7 +123,7 @@ pub fn c11_set_port_n4() {
 
 // @h prop=C11,C04 tier=thorough kind=check timeout=3600 mem=34 bound="UriRefBuf with authority, text <= 6 bytes, port <= 2 bytes or removal" encodes="AuthorityMutImpl::{set_port,as_authority};parse::find_port;utils::{replace,allocate_range}"
 #[cfg_attr(kani, kani::proof)]
-#[cfg_attr(kani, kani::unwind(13))]
+#[cfg_attr(kani, kani::unwind(10))]
 #[cfg_attr(kani, kani::stub(std::vec::Vec::resize, crate::stubs::vec_resize))]
 pub fn c11_set_port_n6() {
     one_op::<PORT, 6, 2>()
